@@ -93,6 +93,13 @@ NS_OPTIONS = {
     "run.posterior_sampling_method": ["rejection_sampling", "multinomial_resampling", "importance_sampling"],
 }
 
+# interaction groups (phase 2b): options read by the same branches
+NS_GROUP = ["flow_proposal_class", "latent_prior", "constant_volume_mode", "volume_fraction", "fixed_radius",
+            "min_radius", "max_radius", "fuzz", "expansion_fraction", "compute_radius_with_all", "truncate_log_q",
+            "accumulate_weights"]
+INS_GROUP = ["threshold_method", "n_update", "strict_threshold", "replace_all", "draw_constant", "draw_iid_live",
+             "min_remove", "max_samples"]
+
 INS_OPTIONS = {
     "threshold_method": [("quantile", {"threshold_method": "quantile", "threshold_kwargs": {"q": 0.8}}),
                          ("quantile+L", {"threshold_method": "quantile",
@@ -356,6 +363,22 @@ def body(r):
                           "healthy": None})
             pjobs[-1]["_assignment"] = assignment
             k += 1
+    # phase 2b: interaction groups. Options that guard the same branches of the code (population geometry of the
+    # flow proposal; level bookkeeping of the importance sampler) are also run as *pure* pairs, every value against
+    # every value of the other options of the group: a covering-array row assigns many options at once, and one of
+    # them (a fixed radius, say) can switch off the very branch another pair of the row would have reached.
+    for sampler, options, group in (("ns", NS_OPTIONS, NS_GROUP), ("ins", INS_OPTIONS, INS_GROUP)):
+        vals = [(o, v) for o in group for v in options[o] if f"{sampler}:{label(o, v)}" not in single_fail]
+        for i, (o1, v1) in enumerate(vals):
+            for o2, v2 in vals[i + 1:]:
+                if o1 == o2:
+                    continue
+                assignment = [(o1, v1), (o2, v2)]
+                pjobs.append({"world": make_world(seed, sampler, dims_list[0], assignment, k),
+                              "labels": [f"{sampler}:{label(o, v)}" for o, v in assignment], "kind": "group-pair",
+                              "sampler": sampler, "dims": dims_list[0], "k": k, "row": None, "healthy": None})
+                pjobs[-1]["_assignment"] = assignment
+                k += 1
     presults = r.map(option_job, pjobs, "option-pairs")
     for res in presults:
         if res.get("harness_error"):
